@@ -140,11 +140,26 @@ def solver_case(rep, spec, index):
     ct = Composition(p=q, type=basis)
     case = dict(fc.describe(), index=index, level="solver")
 
+    one_only = None
+    if not fc.from_membrane and rng.random() < 0.12:
+        one_only = rng.choice(["first", "second"])  # a permeance stated for ONE component only (the other from the membrane)
+        case["only_permeance_supplied_for"] = one_only
+        fc.p1 = fc.membrane.get_permeance(fc.t_feed, fc.mix.first_component)
+        fc.p2 = fc.membrane.get_permeance(fc.t_feed, fc.mix.second_component)
+
     def run_pair(shim=False):
         kw = fc.kwargs()
         kwt = dict(kw, composition=ct)
         if "first_component_permeance" in kw:
             kwt["first_component_permeance"], kwt["second_component_permeance"] = kw["second_component_permeance"], kw["first_component_permeance"]
+        if one_only is not None:
+            from pyvaporation.permeance import Permeance
+
+            stated = Permeance(value=0.5 * (fc.p1.value if one_only == "first" else fc.p2.value) + 1e-7)
+            kw = {k: v for k, v in kw.items() if not k.endswith("_component_permeance")}
+            kwt = dict(kw, composition=ct)
+            kw[one_only + "_component_permeance"] = stated
+            kwt[("second" if one_only == "first" else "first") + "_component_permeance"] = stated
         out = {}
         with guards.budget(proc.SOFT_BUDGET):
             j = fc.pv.calculate_partial_fluxes(**kw)
